@@ -27,6 +27,7 @@ LEVELS = {
         {'name': 'L2-N4-M2-K2-reps1', 'N': 4, 'M': 2, 'K': 2, 'reps': 1, 'Dpos': 1, 'budget_s': 90},
         {'name': 'L3-T1hist-M2-K3-reps6', 'templates': ['T1s', 'T1d'], 'M': 2, 'K': 3, 'hist': 1, 'guards': 0,
          'reps': 6, 'Dpos': 1, 'budget_s': 60},
+        {'name': 'L5-fixed-history-from-inside-K4', 'fixed': 1, 'K': 4, 'guards': 0, 'Dpos': 1, 'budget_s': 60},
         {'name': 'L4-T1hist-fromInside-M2-K3', 'templates': ['T1s', 'T1d'], 'M': 2, 'K': 3, 'hist': 1, 'guards': 0,
          'reps': 8, 'Dpos': 1, 'relax_w7': 1, 'budget_s': 60},
     ],
@@ -81,7 +82,16 @@ HUB = Hub()
 builtins.VF = HUB
 
 
+# root{Z, P{A, B, H}} with A -a-> B, P -b-> Z, Z -a-> P, A -b-> H (H entered from inside its parent while P is active)
+FIXED = [{'N': 5, 'par': [-1, 0, 0, 2, 2, 2][:5], 'kind': [cg.COMPOUND, cg.BASIC, cg.COMPOUND, cg.BASIC, cg.BASIC],
+          'init': [2, -1, 3, -1, -1], 'tr': []}]
+FIXED = [{'N': 6, 'par': [-1, 0, 0, 2, 2, 2], 'kind': [cg.COMPOUND, cg.BASIC, cg.COMPOUND, cg.BASIC, cg.BASIC, kh],
+          'init': [2, -1, 3, -1, -1, 3], 'tr': [[3, 4, 1], [2, 1, 2], [1, 2, 1], [3, 5, 2]]} for kh in (cg.SH, cg.DH)]
+
+
 def shards(level):
+    if level.get('fixed'):
+        return [{'chart': c, 'snap': k, 'method': m} for c in FIXED for k in range(level['K']) for m in (0, 1)]
     if level.get('reps') and 'templates' not in level:
         return [{'skel': sk} for sk in cg.skeletons(level['N'], ALL, require_history=bool(level.get('hist')))]
     if 'templates' in level:
@@ -96,7 +106,7 @@ def shards(level):
 
 def expand(job, level):
     if 'chart' in job:
-        yield job['chart']
+        yield job if 'snap' in job else job['chart']
         return
     allc = list(cg.charts(job['skel'], level['M'], nevents=1, targets='free', fix=job.get('fix'),
                           hist_target=bool(level.get('hist')), evented_only='templates' in level,
@@ -162,14 +172,20 @@ def view(st, trs):
 def harness(g, chart, level, canary=False):
     from sismic.interpreter import Interpreter
     from sismic.exceptions import ContractError, NonDeterminismError, ConflictingTransitionsError
+    forced = None
+    if 'snap' in chart:
+        forced, chart = chart, chart['chart']
     sc, trs, cm = build(g, chart)
     HUB.reset(g)
     HUB.guards = bool(level.get('guards', 1))
     x0 = g.int('x0')
     D = g.int('D', 0 if level.get('Dpos') else None)
     K = level['K']
-    snap_at = g.choice('snap_at', K)           # before step snap_at (0 = right after initialisation)
-    method = ['pickle', 'deepcopy'][g.choice('method', 2)]
+    if forced is not None:
+        snap_at, method = forced['snap'], ['pickle', 'deepcopy'][forced['method']]
+    else:
+        snap_at = g.choice('snap_at', K)           # before step snap_at (0 = right after initialisation)
+        method = ['pickle', 'deepcopy'][g.choice('method', 2)]
     its = {}
     for who in ('plain', 'orig'):
         its[who] = Interpreter(sc, initial_context={'WHO': who, 'x': x0, 'D': D})
@@ -222,7 +238,7 @@ def harness(g, chart, level, canary=False):
         HUB.step = k
         HUB.log.clear()
         adv = g.real('adv%d' % k, 0)
-        ev = [None, 'a'][g.choice('ev%d' % k, 2)]
+        ev = ([None, 'a', 'b'] if level.get('fixed') else [None, 'a'])[g.choice('ev%d' % k, 3 if level.get('fixed') else 2)]
         hist.append(ev)
         whos = [w for w in ('plain', 'orig', 'rest') if w in its]
         for w in whos:
